@@ -400,3 +400,6 @@ def run(ctx):
     rule_s3(ctx)
     rule_s4_s5(ctx, table)
     rule_s6(ctx)
+    # the snapshot is taken in __getitem__: iteration (values and items) must hand out examples through it
+    from . import c10
+    c10.rule_h_iter(ctx)
